@@ -30,8 +30,13 @@ ZERO = "ZERO"  # the additive identity (literal 0 / zeros): unifies with any deg
 
 
 class Top:
-    def __init__(self, why):
+    """no single homogeneity degree.  ``lost`` = the analysis lost track (unknown list length,
+    unmodelled call, irregular loop): *cannot decide*; otherwise the value is definitely a sum
+    of terms of different degrees: a violation"""
+
+    def __init__(self, why, lost=True):
         self.why = why
+        self.lost = lost
 
     def __repr__(self):
         return f"Top({self.why})"
@@ -57,7 +62,7 @@ def vscale(a, num, den=1):
     out = {}
     for k, (x, y) in a.items():
         if (x * num) % den or (y * num) % den:
-            return Top(f"degree {fmt(a)} is not divisible by {den}")
+            return Top(f"degree {fmt(a)} is not divisible by {den}", lost=False)
         out[k] = (x * num // den, y * num // den)
     return out
 
@@ -86,7 +91,7 @@ def unify(a, b, what):
         return a
     if a == b:
         return a
-    return Top(f"{what} of terms with different homogeneity degrees {fmt(a)} and {fmt(b)}")
+    return Top(f"{what} of terms with different homogeneity degrees {fmt(a)} and {fmt(b)}", lost=False)
 
 
 def fmt(v):
@@ -105,8 +110,9 @@ def fmt(v):
 
 
 class Deg:
-    def __init__(self, v):
+    def __init__(self, v, order=None):
         self.v = v
+        self.order = order  # number of modes (a, b) = a + b*N, when the specification gives it
 
     def __repr__(self):
         return f"Deg({fmt(self.v)})"
@@ -163,9 +169,10 @@ class ListV:
 class Other:
     """shapes, ints, strings, None ...: degree 0 when used arithmetically"""
 
-    def __init__(self, const=None, is_none=False):
+    def __init__(self, const=None, is_none=False, count=None):
         self.const = const
         self.is_none = is_none
+        self.count = count  # an integer known as a linear form (a, b) = a + b*N
 
     def __repr__(self):
         return f"Other({self.const!r})"
@@ -187,7 +194,7 @@ MUL_PRIMS = {"dot", "matmul", "tensordot", "kron", "outer", "inner", "multiply"}
 SAME_PRIMS = {
     "reshape", "transpose", "moveaxis", "conj", "abs", "sum", "copy", "flip", "mean", "tensor", "to_numpy", "squeeze",
     "ravel", "unfold", "fold", "tensor_to_vec", "vec_to_tensor", "partial_unfold", "partial_fold", "partial_tensor_to_vec",
-    "partial_vec_to_tensor", "matricize", "trace", "diag", "cumsum", "max", "min", "norm", "index_update_value", "real",
+    "partial_vec_to_tensor", "matricize", "trace", "diag", "cumsum", "max", "min", "norm", "index_update_value", "real", "clip",
 }
 ADD_PRIMS = {"concatenate", "stack", "where", "maximum", "minimum"}
 DEG0_PRIMS = {"ones", "eye", "sign", "shape", "ndim", "context", "eps", "arange", "argmax", "argmin", "argsort", "len", "range", "int", "float", "ones_like"}
@@ -203,6 +210,12 @@ class Evaluator:
         self.problems: List[Tuple[ast.AST, str]] = []
         self.n_override = None  # N fixed by an enclosing `len(shape) == k` test
         self.splits = 0
+        self.solver_prims: set = set()
+        self.in_loop = 0
+        self.watch: set = set()  # local names whose assignments are recorded in self.assigns
+        self.assigns: List[tuple] = []
+        self.ctx_returns: Dict[str, object] = {}  # callee name -> value it returns (specification of initialisers)
+        self.stores: List[tuple] = []  # (node, list name, key, degree) of every element store, in evaluation order
         self.loop_ctx: List[dict] = []  # innermost last: {"idx": name, "const": int | None, "pre": {list name: ListV}}
         self.track_sign = False  # C04: sign(x) carries the symbol S (S*S == 1), abs(x) == x * S
 
@@ -225,6 +238,8 @@ class Evaluator:
             return ("tuple", vals)
         if isinstance(e, ast.Attribute):
             b = self.ev(e.value, env)
+            if e.attr in ("shape", "ndim") and isinstance(b, Deg) and b.order is not None:
+                return ListV(b.order, {}, {}) if e.attr == "shape" else Other(count=b.order)
             if e.attr in ("shape", "ndim", "size", "dtype"):
                 return Other()
             if e.attr == "T":
@@ -295,9 +310,9 @@ class Evaluator:
                     return Other()
                 # a pure number added to a homogeneous term breaks homogeneity unless it is 0
                 if isinstance(a, Other) and da != ZERO and db not in (ZERO, {}):
-                    return Deg(Top(f"constant added to a term of degree {fmt(db)}"))
+                    return Deg(Top(f"constant added to a term of degree {fmt(db)}", lost=False))
                 if isinstance(b, Other) and db != ZERO and da not in (ZERO, {}):
-                    return Deg(Top(f"constant added to a term of degree {fmt(da)}"))
+                    return Deg(Top(f"constant added to a term of degree {fmt(da)}", lost=False))
                 return Deg(unify(da, db, "sum"))
             if isinstance(e.op, ast.Pow):
                 if isinstance(b, Other) and isinstance(b.const, (int, float)):
@@ -429,6 +444,7 @@ class Evaluator:
         """`L[i] = val` for a tracked list L"""
         l = env[lname]
         d = degree_of(val)
+        self.stores.append((slice_node, lname, src(slice_node), d))
         key = None
         if isinstance(slice_node, ast.Constant) and isinstance(slice_node.value, int) and slice_node.value >= 0:
             key = slice_node.value
@@ -443,6 +459,7 @@ class Evaluator:
                 if any(isinstance(k, str) for k in l.over) and not lc.get("skips"):
                     env[lname] = ListV(("?", 0), unify(l.elem(), d, "stored element"), {})
                     return
+                lc["mapped"].add(lname)
                 env[lname] = ListV(l.length, d, l.over, l.extra)
                 return
         if key is None or l.length[0] == "?" or l.extra:
@@ -538,6 +555,21 @@ class Evaluator:
             for a in args[:2]:
                 t = vadd(t, degree_of(a))
             return Deg(t)
+        if name in ("solve", "lstsq") and len(args) >= 2:
+            # x with A x = b: degree(b) - degree(A)
+            da, db = degree_of(args[0]), degree_of(args[1])
+            if isinstance(da, Top) or isinstance(db, Top):
+                return Deg(da if isinstance(da, Top) else db)
+            return Deg(vadd(db if db != ZERO else {}, da if da != ZERO else {}, -1))
+        if name in self.ctx_returns:
+            r = self.ctx_returns[name]
+            return r(c) if callable(r) else r
+        if name in ("svd_interface", "truncated_svd", "svd", "randomized_svd", "symeig_svd") and args:
+            # U and V are orthonormal (scale-free); the singular values carry the degree
+            return ("tuple", [Deg({}), Deg(degree_of(args[0])), Deg({})])
+        if name in self.solver_prims and len(args) >= 2:
+            # an (NN)LS solver called on normal-equation data (UtM, UtU): its exact solution has degree UtM - UtU
+            return Deg(vadd(degree_of(args[0]), degree_of(args[1]), -1))
         if name == "sqrt":
             return Deg(vscale(degree_of(args[0]), 1, 2)) if args else Deg({})
         if name in ADD_PRIMS:
@@ -558,6 +590,10 @@ class Evaluator:
             return Deg(unify(degree_of(args[0]), degree_of(args[2]), "index_update")) if len(args) > 2 else Deg({})
         if name in ZERO_PRIMS:
             return Deg(ZERO)
+        if name in ("shape", "ndim") and args and isinstance(args[0], Deg) and args[0].order is not None:
+            return ListV(args[0].order, {}, {}) if name == "shape" else Other(count=args[0].order)
+        if name == "len" and args and isinstance(args[0], ListV) and args[0].length[0] != "?":
+            return Other(count=args[0].length)
         if name in DEG0_PRIMS:
             return Other() if name in ("shape", "ndim", "context", "len", "range", "int", "float", "arange") else Deg({})
         if name in SAME_PRIMS:
@@ -594,7 +630,7 @@ class Evaluator:
                     # returns taken only for a fixed number of factors must agree for that number
                     for v, nf in special:
                         if not isinstance(t, Top) and subst_n(v.v, nf) != subst_n(t, nf):
-                            t = Top(f"return paths of {g.name} disagree for {nf} factor(s): {fmt(v.v)} vs {fmt(t)}")
+                            t = Top(f"return paths of {g.name} disagree for {nf} factor(s): {fmt(v.v)} vs {fmt(t)}", lost=False)
                     return Deg(t)
                 if special:
                     return Deg(special[0][0].v)
@@ -629,6 +665,10 @@ class Evaluator:
                 return isinstance(t.ops[0], (ast.Is, ast.Eq))
             if isinstance(v, (Deg, ListV)) or (isinstance(v, Other) and v.const is not None):
                 return isinstance(t.ops[0], (ast.IsNot, ast.NotEq))
+        if isinstance(t, ast.Compare) and len(t.ops) == 1 and isinstance(t.ops[0], (ast.Eq, ast.NotEq)) and isinstance(t.left, ast.Name) and isinstance(t.comparators[0], ast.Constant) and isinstance(t.comparators[0].value, str):
+            v = env.get(t.left.id)
+            if isinstance(v, Other) and isinstance(v.const, str):
+                return (v.const == t.comparators[0].value) == isinstance(t.ops[0], ast.Eq)
         if isinstance(t, ast.Call) and is_name(t.func, "isinstance"):
             return False if s.startswith("isinstance(") and ("float" in s or "CPTensor" in s or "int" in s) else None
         if isinstance(t, ast.Name):
@@ -665,6 +705,8 @@ class Evaluator:
                 if isinstance(s.value, ast.List) and not s.value.elts:
                     val = ListV((0, 0), None, {})
                 for t in s.targets:
+                    if isinstance(t, ast.Name) and t.id in self.watch and self.in_loop:
+                        self.assigns.append((s, t.id, degree_of(val)))
                     if isinstance(t, ast.Subscript) and isinstance(t.value, ast.Name) and isinstance(env.get(t.value.id), ListV):
                         self.store_elem(t.value.id, t.slice, val, env)
                     else:
@@ -743,7 +785,7 @@ class Evaluator:
             if a is None or b is None:
                 env[k] = a if b is None else b
             elif isinstance(a, Deg) and isinstance(b, Deg):
-                env[k] = Deg(unify(a.v, b.v, f"`{k}` after a branch"))
+                env[k] = a if a.v == b.v and a.order == b.order else Deg(unify(a.v, b.v, f"`{k}` after a branch"), order=a.order if a.order == b.order else None)
             elif isinstance(a, ListV) and isinstance(b, ListV):
                 if a.length == b.length and a.default == b.default and a.over == b.over and sorted(map(fmt, a.extra)) == sorted(map(fmt, b.extra)):
                     env[k] = a
@@ -767,21 +809,30 @@ class Evaluator:
             lo_ok = len(it.args) == 1 or (len(it.args) == 2 and isinstance(it.args[0], ast.Constant) and it.args[0].value == 0)
             if lo_ok and isinstance(a, ast.Call) and is_name(a.func, "len") and a.args and isinstance(a.args[0], ast.Name) and isinstance(env.get(a.args[0].id), ListV):
                 pos_of = a.args[0].id
+        counted = None
+        if pos_of is None and isinstance(it, ast.Call) and is_name(it.func, "range") and 1 <= len(it.args) <= 2 and isinstance(s.target, ast.Name):
+            hi = self.ev(it.args[-1], env)
+            lo = _int_const(it.args[0]) if len(it.args) == 2 else 0
+            if isinstance(hi, Other) and hi.count is not None and lo is not None:
+                counted = (hi.count[0] - lo, hi.count[1])
         if pos_of is not None:
             lst = env[pos_of]
+        elif counted is not None:
+            lst = Other()
         else:
             lst = self.ev(it.args[0] if enum else it, env)
-        length = lst.length if isinstance(lst, ListV) else ("?", 0)
+        length = lst.length if isinstance(lst, ListV) else (counted if counted is not None else ("?", 0))
         iter_name = pos_of or (it.args[0].id if enum and isinstance(it.args[0], ast.Name) else (it.id if isinstance(it, ast.Name) else None))
-        if pos_of is not None:
+        if pos_of is not None or counted is not None:
             idx = s.target.id
         else:
             idx = s.target.elts[0].id if enum and isinstance(s.target, ast.Tuple) and isinstance(s.target.elts[0], ast.Name) else None
         pre = {k: v for k, v in env.items() if isinstance(v, ListV)}
+        mapped = set()  # lists that receive a store at the loop position in a generic iteration
 
         def body(e, elem, const=None, skips=False):
             e = dict(e)
-            if pos_of is not None:
+            if pos_of is not None or counted is not None:
                 self.bind_target(s.target, Other(), e)
             elif enum and isinstance(s.target, ast.Tuple) and len(s.target.elts) == 2:
                 self.bind_target(s.target.elts[0], Other(), e)
@@ -789,11 +840,14 @@ class Evaluator:
             else:
                 self.bind_target(s.target, elem, e)
             saved = list(self.returns)
-            self.loop_ctx.append({"idx": idx, "const": const, "pre": pre, "skips": skips})
+            lc = {"idx": idx, "const": const, "pre": pre, "skips": skips, "mapped": mapped}
+            self.loop_ctx.append(lc)
+            self.in_loop += 1
             try:
                 self.block(s.body, e)
             finally:
                 self.loop_ctx.pop()
+                self.in_loop -= 1
             self.returns = saved + [r for r in self.returns[len(saved):]]
             return e
 
@@ -862,8 +916,10 @@ class Evaluator:
             """degree after all the generic iterations, given the degree before and after one and two of them"""
             if isinstance(v1, Top) or isinstance(v2, Top) or isinstance(d0, Top):
                 return v1 if isinstance(v1, Top) else (v2 if isinstance(v2, Top) else d0)
+            if v1 == v2:
+                return v1  # overwritten (not accumulated) in every iteration
             if d0 == ZERO or v1 == ZERO:
-                return v2 if v1 == v2 else Top(f"{what} changes degree irregularly in a loop")
+                return Top(f"{what} changes degree irregularly in a loop")
             inc1, inc2 = vadd(v1, d0, -1), vadd(v2, v1, -1)
             if inc1 != inc2:
                 return Top(f"{what} changes degree irregularly in a loop")
@@ -880,7 +936,8 @@ class Evaluator:
                 if d0 is None:
                     env[k] = a1
                     continue
-                env[k] = Deg(accel(k, d0, a1.v, a2.v, f"`{k}`"))
+                nv = accel(k, d0, a1.v, a2.v, f"`{k}`")
+                env[k] = a0 if isinstance(a0, Deg) and nv == a0.v else Deg(nv, order=a1.order)
             elif isinstance(a0, ListV) and isinstance(a1, ListV) and isinstance(a2, ListV) and a0.length[0] != "?" and a1.length[0] != "?" and a2.length[0] != "?":
                 g1 = (a1.length[0] - a0.length[0], a1.length[1] - a0.length[1])
                 g2 = (a2.length[0] - a1.length[0], a2.length[1] - a1.length[1])
@@ -893,6 +950,10 @@ class Evaluator:
                     else:
                         env[k] = ListV(("?", 0), unify(a0.elem(), d, f"elements appended to `{k}`"), {})
                 elif g1 == g2 == (0, 0) and a1.extra == a2.extra == a0.extra:
+                    if k in mapped and set(a1.over) == set(a0.over):
+                        # every position is written once from the values before the loop: one pass is the result
+                        env[k] = a1
+                        continue
                     if a1.default != a2.default or set(a1.over) != set(a2.over):
                         env[k] = ListV(("?", 0), a2.elem(), {})
                         continue
@@ -1026,6 +1087,8 @@ def run_homogeneity(ctx: Ctx, rule="HOMOGENEITY", only_modules=None):
                 got, exp = subst_n(got, nfix), subst_n(exp, nfix)
             ok = got == exp
             res.instance(rule, f"{qname} [{cfg}]: {src(node)[:60]}", sample={"configuration": cfg, "degree": fmt(got), "expected": fmt(exp), "ok": ok})
+            if isinstance(got, Top) and got.lost:
+                raise AnalysisError(f"{rule}: the degree of `{src(node)[:60]}` in {qname} [{cfg}] could not be computed ({got.why}); cannot decide")
             if not ok:
                 ctx.finding(rule, f, node, f"`{f.name}` [{cfg}] returns a value that is {fmt(got)} but the defining contraction is {fmt(exp)} (homogeneity degrees: weights/core/factor symbols to the power shown, N = number of factors): a factor or the weights enter the product the wrong number of times", construct=f"{src(node)[:80]} [{cfg}] degree {fmt(got)} != {fmt(exp)}")
     return n
